@@ -121,9 +121,13 @@ BeginStopAll(o) ==
     /\ pc' = "stopall"
     /\ UNCHANGED <<inst, cb, srv, wg, instances, waiter, held, att>>
 
+\* the hand-over flag of an instance matters only to a later reload of that instance: for an operation
+\* that fails (its instance is discarded) and for the last operation of a history it is fixed to TRUE
+\* (the other value would only repeat the same behaviours)
+FileFlagMatters(o) == (o.f # "none" \/ Len(hist) = MaxOps - 1) => o.file
 BeginOp(o) ==
     /\ pc = "idle" /\ Len(hist) < MaxOps
-    /\ Applicable(o)
+    /\ Applicable(o) /\ FileFlagMatters(o)
     /\ hist' = Append(hist, o) /\ op' = o
     /\ (BeginStart(o) \/ BeginRestart(o) \/ BeginStop(o) \/ BeginStopAll(o))
 
